@@ -97,6 +97,25 @@ class Defs(object):
         if a.kwarg:
             self.params.add(a.kwarg.arg)
         self._cache = {}
+        self._vals = {}
+
+    def value_of(self, name, st):
+        """the expression definition ``st`` binds to ``name`` (the matching element of ``a, b = x, y``)"""
+        return self._vals.get((name, id(st)), getattr(st, 'value', None))
+
+    @staticmethod
+    def _display_element(st, name):
+        """``a, b = x, y`` (displays of the same length, plain names, no star): the element bound to ``name``, else None"""
+        if not (isinstance(st, ast.Assign) and len(st.targets) == 1 and isinstance(st.targets[0], (ast.Tuple, ast.List)) and
+                isinstance(st.value, (ast.Tuple, ast.List)) and len(st.targets[0].elts) == len(st.value.elts)):
+            return None
+        if any(not isinstance(e, ast.Name) for e in st.targets[0].elts) or any(isinstance(e, ast.Starred) for e in st.value.elts):
+            return None
+        hits = [v for e, v in zip(st.targets[0].elts, st.value.elts) if e.id == name]
+        # (the right-hand side is evaluated before any target is bound: it must not read the targets)
+        if len(hits) != 1 or names_stored(st.targets[0]) & set(n.id for n in ast.walk(st.value) if isinstance(n, ast.Name)):
+            return None
+        return hits[0]
 
     def of(self, name):
         """([(stmt, [node ids])], clean).  ``clean`` is False when the local is (also) bound by something that is not a
@@ -146,6 +165,12 @@ class Defs(object):
                     by_stmt[id(st)] = (st, [])
                     order.append(id(st))
                 by_stmt[id(st)][1].append(nd.id)
+            elif self._display_element(st, name) is not None:
+                self._vals[(name, id(st))] = self._display_element(st, name)
+                if id(st) not in by_stmt:
+                    by_stmt[id(st)] = (st, [])
+                    order.append(id(st))
+                by_stmt[id(st)][1].append(nd.id)
             elif name in names_stored(st):
                 clean = False
         res = ([by_stmt[k] for k in order], clean)
@@ -168,7 +193,7 @@ class Defs(object):
             if node not in fwd:
                 continue
             mid = (fwd & cfg.coreach([node], avoid=all_ids - {node})) - {node}
-            out.append((st, st.value, mid))
+            out.append((st, self.value_of(name, st), mid))
         return out
 
 
@@ -179,6 +204,11 @@ def _static_compare(val, other, op, fold):
         return _UNDECIDED
     if _is_simple_value(val) and not isinstance(val, ast.Constant) and norm(val) == norm(other):
         return eq
+    if _is_simple_value(val) and not isinstance(val, ast.Constant):
+        # a named constant (``outcome = _REDIRECT`` ... ``outcome == _NOT_FOUND``): compare by its folded value
+        c1 = fold(val)
+        if c1 is not _UNDECIDED and (c1 is None or type(c1) in (str, int, bool, bytes)):
+            val = ast.copy_location(ast.Constant(value=c1), val)
     if isinstance(val, ast.Constant):
         c2 = other.value if isinstance(other, ast.Constant) else fold(other)
         if c2 is _UNDECIDED:
@@ -196,59 +226,109 @@ def _static_compare(val, other, op, fold):
     return _UNDECIDED
 
 
+def _between_conds(cfg, defs, name, st, node):
+    """Conditions that hold at ``node`` because definition ``st`` of local ``name`` is the current one there: the
+    branches every way from the definition to ``node`` takes (no other definition of the local in between), last
+    evaluated with that outcome, nothing re-binding what the test reads afterwards.  (``x = f(); if bad(x): x = None`` ...
+    at a point where x is known to be the f() value, ``bad(x)`` was false.)"""
+    from ..cfg import expand_conds
+    ds, clean = defs.of(name)
+    if not clean:
+        return []
+    stop = set(i for _, ids in ds for i in ids) - {node}
+    after = [m for i in cfg.nodes_of(st) for m in cfg.succ[i] if (i, m) not in cfg.exc_edges]
+    fwd = cfg.reach(after, avoid=stop)
+    if node not in fwd:
+        return []
+    back = cfg.coreach([node], avoid=stop)
+    region = fwd & back
+    out, seen = [], set()
+    for b in sorted(region):
+        nd = cfg.nodes[b]
+        if nd.kind != 'branch' or id(nd.test) in seen:
+            continue
+        seen.add(id(nd.test))
+        for pol in (True, False):
+            bs = set(x for x in cfg.branch_nodes(nd.test, pol) if x in region)
+            nbs = [x for x in cfg.branch_nodes(nd.test, not pol) if x in fwd]
+            if not bs or node in bs:
+                continue
+            if node in cfg.reach(after, avoid=stop | bs) or node in cfg.reach(nbs, avoid=stop | bs):
+                continue
+            mid = (cfg.reach(list(bs), avoid=stop) & back) - {node} - bs
+            if cfg._kills(nd.test, mid):
+                continue
+            out.append((nd.test, pol))
+    return expand_conds(out)
+
+
 def refine_conds(cfg, defs, node, cs, fold, rounds=4):
     """Reaching-definition refinement of path conditions.
 
     For a condition ``v <op> e`` (== / != / is / is not, v a plain local) known with polarity p at ``node``: every
     definition ``v = val`` that may reach ``node`` and for which ``val <op> e`` is statically the opposite of p is
     ruled out (``canonical = url_path ... canonical == url_path`` is not False; ``mode = None ... mode == S_REDIRECT``
-    is not True).  If exactly one definition remains, the conditions under which that definition runs hold at
-    ``node`` too, and so does the comparison on its defining expression -- provided nothing in between re-binds a
-    name those expressions read."""
+    is not True) -- for every known condition on that local.  If exactly one definition remains, the conditions under
+    which that definition runs hold at ``node`` too, so do the outcomes of the branches between the definition and
+    ``node`` that every way takes, and so does each known comparison with the defining expression in place of the
+    local -- provided nothing in between re-binds a name those expressions read."""
     out = list(cs)
     known = set((norm(t), p) for t, p in out)
-    work = list(cs)
-    for _ in range(rounds):
-        new = []
-        for t, p in work:
+    ruled, done = {}, set()
+    for _ in range(rounds + 2):
+        comps = []
+        for t, p in out:
             t, p = strip_not(t, p)
             if not (isinstance(t, ast.Compare) and len(t.ops) == 1 and isinstance(t.ops[0], (ast.Eq, ast.NotEq, ast.Is, ast.IsNot))):
                 continue
-            sides = [(t.left, t.comparators[0], 'l'), (t.comparators[0], t.left, 'r')]
-            for side, other, which in sides:
-                if not isinstance(side, ast.Name):
+            for side, other, which in ((t.left, t.comparators[0], 'l'), (t.comparators[0], t.left, 'r')):
+                if isinstance(side, ast.Name):
+                    comps.append((t, p, side, other, which))
+        # what is known rules out definitions ...
+        for t, p, side, other, which in comps:
+            rd = defs.reaching(side.id, node)
+            if not rd:
+                continue
+            for st, val, mid in rd:
+                if cfg._kills(val, mid) or cfg._kills(other, mid):
                     continue
-                rd = defs.reaching(side.id, node)
-                if not rd:
-                    continue
-                keep = []
-                for st, val, mid in rd:
-                    o = _UNDECIDED
-                    if not cfg._kills(val, mid) and not cfg._kills(other, mid):
-                        o = _static_compare(val, other, t.ops[0], fold)
-                    if o is _UNDECIDED or o is p:
-                        keep.append((st, val, mid))
-                if len(keep) != 1:
-                    continue
-                st, val, mid = keep[0]
-                if not cfg._kills(val, mid):
-                    v2 = copy.deepcopy(val)
-                    sub = ast.Compare(left=v2 if which == 'l' else t.left, ops=[t.ops[0]],
-                                      comparators=[t.comparators[0] if which == 'l' else v2])
-                    ast.copy_location(sub, t)
-                    ast.fix_missing_locations(sub)
-                    new.append((sub, p))
-                for t2, p2 in cfg.conds_at_stmt(st):
-                    if not cfg._kills(t2, mid):
-                        new.append((t2, p2))
-        work = []
+                o = _static_compare(val, other, t.ops[0], fold)
+                if o is not _UNDECIDED and o is not p:
+                    ruled.setdefault(side.id, set()).add(id(st))
+        # ... and a local with a single definition left stands for that definition
+        new = []
+        for t, p, side, other, which in comps:
+            key = (norm(t), p, side.id, which)
+            if key in done:
+                continue
+            rd = defs.reaching(side.id, node)
+            if not rd:
+                continue
+            keep = [d for d in rd if id(d[0]) not in ruled.get(side.id, ())]
+            if len(keep) != 1:
+                continue
+            done.add(key)
+            st, val, mid = keep[0]
+            if not cfg._kills(val, mid):
+                v2 = copy.deepcopy(val)
+                sub = ast.Compare(left=v2 if which == 'l' else t.left, ops=[t.ops[0]],
+                                  comparators=[t.comparators[0] if which == 'l' else v2])
+                ast.copy_location(sub, t)
+                ast.fix_missing_locations(sub)
+                new.append((sub, p))
+            for t2, p2 in cfg.conds_at_stmt(st):
+                if not cfg._kills(t2, mid):
+                    new.append((t2, p2))
+            if len(rd) > 1:
+                new.extend(_between_conds(cfg, defs, side.id, st, node))
+        grew = False
         for t, p in new:
             k = (norm(t), p)
             if k not in known:
                 known.add(k)
                 out.append((t, p))
-                work.append((t, p))
-        if not work:
+                grew = True
+        if not grew:
             break
     return out
 
@@ -261,6 +341,7 @@ class DispatchView(object):
         self.cfg = cfg_of(self.fi)
         self.defs = Defs(self.cfg, self.fi.node)
         self._bc = {}
+        self._locals = None
         f = self.fi.node
         ps = self.fi.params()
         self.request = ps[1] if len(ps) > 1 else 'request'
@@ -334,8 +415,153 @@ class DispatchView(object):
         return norm(self.resolve(e)) == '%s.%s' % (self.request, attr)
 
     def fold(self, e):
+        """value of a module-level constant expression; locals of dispatch are never folded (a local may shadow a constant)"""
+        if self._locals is None:
+            self._locals = set(n.id for n in walk_body(self.fi.node) if isinstance(n, ast.Name) and isinstance(n.ctx, (ast.Store, ast.Del))) | \
+                set(self.defs.params)
+        if any(isinstance(n, ast.Name) and n.id in self._locals for n in ast.walk(e)):
+            return _UNDECIDED
         v = self.repo.try_fold(e, self.app, _UNDECIDED)
         return v
+
+    # -- path sensitivity over tagged outcomes -------------------------------------------------------------
+    def latest_defs_from(self, name, src_nodes, node, within=None):
+        """Definitions of the plain local ``name`` that can be the most recent one when control arrives at ``node`` from
+        one of ``src_nodes`` without passing a node of ``within`` (default: the loop header, i.e. in the same iteration):
+        [(stmt, value)]; None when the local is not cleanly defined."""
+        stop = set(self.head if within is None else within)
+        ds, clean = self.defs.of(name)
+        if not clean or not ds:
+            return None
+        cfg = self.cfg
+        all_ids = set(i for _, ids in ds for i in ids)
+        src_nodes = list(src_nodes)
+        out, seen = [], set()
+        after_src = [m for s_ in src_nodes for m in cfg.succ[s_]]
+        undefined_since = cfg.reach(after_src, avoid=(all_ids | stop) - {node})
+        if node in undefined_since or node in src_nodes:
+            # no definition need lie between the source and the node: what was current at the source still is
+            for s_ in src_nodes:
+                if s_ in all_ids:
+                    continue
+                rd = self.defs.reaching(name, s_)
+                if rd is None:
+                    return None
+                for st, val, mid in rd:
+                    if id(st) not in seen:
+                        seen.add(id(st))
+                        out.append((st, val))
+        from_src = cfg.reach(src_nodes, avoid=stop - set(src_nodes))
+        for st, ids in ds:
+            live = [i for i in ids if i in from_src]
+            if not live:
+                continue
+            after = [m for i in live for m in cfg.succ[i] if (i, m) not in cfg.exc_edges]
+            if node in cfg.reach(after, avoid=(all_ids | stop) - {node}) and id(st) not in seen:
+                seen.add(id(st))
+                out.append((st, self.defs.value_of(name, st)))
+        return out
+
+    def infeasible_branches(self, src_nodes):
+        """Branch nodes that cannot be taken on the way from ``src_nodes`` to the next loop header (the rest of the
+        same iteration; use the result only to prune searches that stop at the header): the branch's own test contains an
+        (in)equality between a plain local and a constant, and every definition of the local that can be current
+        there binds a constant deciding the comparison the other way (``outcome = _REDIRECT`` ... ``if outcome ==
+        _NOT_FOUND``).  Only comparisons of folded constants are decided; everything else stays feasible."""
+        from ..cfg import expand_conds
+        cfg = self.cfg
+
+        def const(e):
+            if isinstance(e, ast.Constant):
+                return e.value
+            v = self.fold(e) if _is_simple_value(e) else _UNDECIDED
+            return v if v is _UNDECIDED or v is None or type(v) in (str, int, bool, bytes) else _UNDECIDED
+        out = set()
+        src_nodes = list(src_nodes)
+        reach = cfg.reach(src_nodes, avoid=set(self.head) - set(src_nodes))
+        for nd in cfg.nodes:
+            if nd.kind != 'branch' or nd.id not in reach:
+                continue
+            for t, p in expand_conds([(nd.test, nd.pol)]):
+                if not (isinstance(t, ast.Compare) and len(t.ops) == 1 and isinstance(t.ops[0], (ast.Eq, ast.NotEq))):
+                    continue
+                for side, other in ((t.left, t.comparators[0]), (t.comparators[0], t.left)):
+                    if not isinstance(side, ast.Name):
+                        continue
+                    c2 = const(other)
+                    if c2 is _UNDECIDED:
+                        continue
+                    cands = self.latest_defs_from(side.id, src_nodes, nd.id)
+                    if not cands:
+                        continue
+                    outcomes = []
+                    for st, val in cands:
+                        c1 = const(val)
+                        if c1 is _UNDECIDED or (c1 is not None and c2 is not None and type(c1) is not type(c2) and not
+                                                (isinstance(c1, (int, bool)) and isinstance(c2, (int, bool)))):
+                            outcomes.append(None)
+                        else:
+                            outcomes.append((c1 == c2) is isinstance(t.ops[0], ast.Eq))
+                    if all(o is (not p) for o in outcomes):
+                        out.add(nd.id)
+        return out
+
+    def value_at(self, name, at):
+        """The definitions of the plain local ``name`` whose value can be read at statement ``at``: the reaching
+        definitions minus those that contradict what is known at ``at`` (refined conditions: ``if outcome == _REDIRECT:
+        return result`` -- only the ``result`` bound where the outcome was set to _REDIRECT).  A definition is ruled out
+        when its own path conditions contradict the known ones, or when every way from it to ``at`` that binds the local
+        no more takes a branch whose test is known to have the opposite outcome (a default bound up front, overwritten
+        in the branch that is known to have been taken).  [(stmt, value)]; None when the local is not cleanly defined."""
+        from ..cfg import expand_conds
+        cfg = self.cfg
+        nodes = [n for n in cfg.nodes_of(at) if cfg.reachable(n)]
+        if not nodes:
+            return None
+        cs = self.conds(at)
+        known = dict(((norm(t), p), t) for t, p in cs)
+        known_obj = dict((id(t), (t, p)) for t, p in cs)
+        against = []        # (branch node, test): taking the branch says the opposite of a known condition (same test object)
+        for nd in cfg.nodes:
+            if nd.kind == 'branch':
+                for t, p in expand_conds([(nd.test, nd.pol)]):
+                    k = known_obj.get(id(t))
+                    if k is not None and k[1] is not p:
+                        against.append((nd.id, t))
+        ds, clean = self.defs.of(name)
+        if not clean or not ds:
+            return None
+        all_ids = set(i for _, ids in ds for i in ids)
+        out, seen = [], set()
+        for n in nodes:
+            rd = self.defs.reaching(name, n)
+            if rd is None:
+                return None
+            for st, val, mid in rd:
+                contradicted = False
+                for t2, p2 in cfg.conds_at_stmt(st):
+                    if (norm(t2), not p2) in known and not cfg._kills(t2, mid):
+                        contradicted = True
+                        break
+                if not contradicted and against:
+                    ids = [i for i in cfg.nodes_of(st)]
+                    after = [m for i in ids for m in cfg.succ[i] if (i, m) not in cfg.exc_edges]
+                    stop = all_ids - {n}
+                    back = cfg.coreach([n], avoid=stop)
+                    # (the known condition speaks about the values at ``at``: a contradicted branch is closed only if nothing
+                    # between that branch and ``at`` re-binds what its test reads)
+                    closed = set(b for b, t in against if not cfg._kills(t, (cfg.reach([b], avoid=stop) & back) - {n, b}))
+                    live = n in cfg.reach(after, avoid=stop | closed)
+                    if not live:
+                        # ... or in a later iteration: around the loop first (nothing is known about that part), then from
+                        # the loop header to ``at`` without taking a contradicted branch
+                        heads = [h for h in self.head if h in cfg.reach(after, avoid=stop)]
+                        live = bool(heads) and n in cfg.reach(heads, avoid=stop | closed)
+                    contradicted = not live
+                if not contradicted and id(st) not in seen:
+                    seen.add(id(st))
+                    out.append((st, val))
+        return out
 
     def conds(self, node):
         """Refined path conditions holding at the statement that contains ``node``."""
